@@ -1,7 +1,101 @@
-//! C02 — not built yet.
-use vcore::Ctx;
+//! C02 — execution results of dynamic schemas equal the specification's execution algorithm.
+use crate::execcmp::*;
+use vcore::{Case, Ctx, Src};
+use vgql::gensch::*;
+use vgql::gentyped::*;
+use vgql::print::print_plain;
+use vgql::refexec::{execute, Quirks};
+use vgql::world::*;
+use vschemas::dynbuild::build_dynamic;
+use vschemas::rt::Rt;
 
-pub fn run(_ctx: &mut Ctx) {
-    eprintln!("C02: check not built yet");
-    std::process::exit(2);
+pub struct DynCase {
+    pub text: String,
+    pub rendered: String,
+    pub stats: DocStats,
+}
+
+pub fn typed_cfg(ctx: &Ctx, prop: &str) -> TypedCfg {
+    let mut cfg = TypedCfg::default();
+    cfg.union_cond_in_object = !ctx.open(&format!("{}-F1", prop));
+    cfg.defaulted_directive_vars = !ctx.open("C01-F2");
+    cfg.omitted_var_with_arg_default = !ctx.open("C06-F1");
+    cfg
+}
+
+pub fn run_one(s: &mut dyn Src, tcfg: &TypedCfg, quirks: Quirks, known: &[&str]) -> Case {
+    let sch = gen_sch(s, &SchCfg::default());
+    let world = gen_world(&sch, s, &WorldCfg { null_composite_items: false, ..WorldCfg::default() });
+    let mut td = gen_typed_doc(&sch, s, tcfg);
+    let text = print_plain(&mut td.doc);
+    let rendered = format!("schema: {}\nworld: {}\nquery: {}\nvariables: {}", show_sch(&sch), world.show(), text, vars_json(&td.vars));
+    let rt = Rt::new(world.clone());
+    let schema = match build_dynamic(&sch, &rt, |b| b) {
+        Ok(s) => s,
+        Err(e) => return Case::fail(rendered, format!("HARNESS: generated schema does not build: {}", e)),
+    };
+    let want = match execute(&sch, &td.doc, td.op_name.as_deref(), &td.vars, &world, Quirks::default()) {
+        Ok(w) => w,
+        Err(e) => return Case::fail(rendered, format!("HARNESS: reference executor rejects a generated request: {:?}", e)),
+    };
+    let resp = vcore::det::block_on(schema.execute(request(&text, &td.vars, td.op_name.as_deref())));
+    let st = &td.stats;
+    let nontrivial = st.union_cond_in_object + st.interface_cond + st.object_cond > 0 || st.repeated_keys > 0 || st.directive_var > 0;
+    let mut c = match compare(&want, &resp) {
+        Ok(()) => Case::pass(rendered),
+        Err(e) => {
+            // does the deviation match the quirks of the open findings exactly?
+            let mut attributed = None;
+            if quirks != Quirks::default() {
+                if let Ok(w2) = execute(&sch, &td.doc, td.op_name.as_deref(), &td.vars, &world, quirks) {
+                    if compare(&w2, &resp).is_ok() {
+                        attributed = Some(known.iter().map(|k| k.to_string()).collect::<Vec<_>>());
+                    }
+                }
+            }
+            match attributed {
+                Some(ids) => Case::known(rendered, ids),
+                None => Case::fail(rendered, format!("{}; errors reported: {:?}", e, resp.errors.iter().map(|e| e.message.clone()).collect::<Vec<_>>())),
+            }
+        }
+    };
+    c.nontrivial = c.nontrivial || nontrivial;
+    c.class_if(st.union_cond_in_object > 0, "union-condition-in-object")
+        .class_if(st.interface_cond > 0, "interface-condition")
+        .class_if(st.nested_fragments >= 2, "nested-fragments>=2")
+        .class_if(st.named_fragments > 0, "named-fragment")
+        .class_if(st.directive_var_defaulted > 0, "defaulted-directive-variable")
+        .class_if(st.directive_var > 0, "directive-variable")
+        .class_if(st.repeated_keys > 0, "repeated-key")
+        .class_if(st.vars > 0, "variables")
+        .class_if(sch.mutation.is_some(), "schema-with-mutation")
+}
+
+pub fn run(ctx: &mut Ctx) {
+    ctx.rule = "random dynamic type systems (<=12 types: objects, interfaces incl. inheritance, unions, enums, custom scalar, input objects incl. oneOf), data worlds valid for \
+                them, and type-directed valid documents with variables; response compared with the reference executor (data exactly, errors by path+location). Non-trivial = \
+                a fragment with a type condition, a repeated response key, or a variable-driven @skip/@include; distinct by rendered (schema, world, query, variables)".into();
+    ctx.assume("resolvers return values valid for the declared type (built-in scalars are not checked by the dynamic API, so only type-correct values are generated); invalid enum / custom scalar values are C03's fault class");
+    ctx.assume("null items inside lists of object/interface/union type are not generated: the dynamic API has no way to return them (FieldValue::NULL at an object position is an object with a null parent value, as the crate's own tests use it)");
+    ctx.assume("documents are valid by construction (generator), not filtered by async-graphql's validator");
+    let n = ctx.tier.pick(40_000, 1_000_000);
+    let main_cfg = typed_cfg(ctx, "C02");
+    if ctx.open("C02-F1") {
+        ctx.excluded("C02-F1");
+    }
+    if ctx.open("C01-F2") {
+        ctx.excluded("C01-F2");
+    }
+    let mut ops_cfg = main_cfg.clone();
+    ops_cfg.ops = vec![vgql::ast::OpKind::Query, vgql::ast::OpKind::Mutation];
+    ctx.stream("dynamic", n, 600, |s| run_one(s, &ops_cfg, Quirks::default(), &[]));
+    // probe stream: constructs of the open findings enabled, deviations must match their quirks exactly
+    let f1 = ctx.open("C02-F1");
+    if f1 {
+        let mut pcfg = TypedCfg::default();
+        pcfg.defaulted_directive_vars = main_cfg.defaulted_directive_vars;
+        pcfg.omitted_var_with_arg_default = main_cfg.omitted_var_with_arg_default;
+        let q = Quirks { union_condition_in_object_dropped: true, ..Quirks::default() };
+        ctx.stream("probe-union-condition", n / 8, 600, |s| run_one(s, &pcfg, q, &["C02-F1"]));
+    }
 }
